@@ -111,7 +111,58 @@ func genHostname(r *rand.Rand) string {
 	return strings.Join(parts, ".")
 }
 
-var addrClasses = []string{"ipv4", "ipv6-full", "ipv6-compressed", "ipv6-mapped", "hostname"}
+var addrClasses = []string{"ipv4", "ipv6-full", "ipv6-compressed", "ipv6-mapped", "hostname",
+	"ipv6-zoned", "hostname-underscore", "hostname-trailing-dot", "hostname-upper-case", "hostname-single-label",
+	"hostname-numeric-label", "hostname-long-label"}
+
+// genUnusual: address strings an announcer can legitimately send that are
+// neither plain IP literals nor plain lower-case DNS names.
+func genUnusual(r *rand.Rand, class string) string {
+	const alnum = "abcdefghijklmnopqrstuvwxyz0123456789"
+	word := func(min, max int) string {
+		n := min + r.Intn(max-min+1)
+		b := make([]byte, n)
+		for i := range b {
+			b[i] = alnum[r.Intn(len(alnum))]
+		}
+		return string(b)
+	}
+	switch class {
+	case "ipv6-zoned": // link-local literal with a zone: net.ParseIP does not accept these
+		zone := []string{"eth0", "en0", "2", "wlan0", "docker0", "br-" + word(4, 8)}[r.Intn(6)]
+		switch r.Intn(3) {
+		case 0:
+			return "fe80::1%" + zone
+		case 1:
+			return fmt.Sprintf("fe80::%x:%xff:fe%02x:%x%%%s", r.Intn(65536), r.Intn(256), r.Intn(256), 1+r.Intn(65535), zone)
+		}
+		return fmt.Sprintf("fe80::%x%%%s", 1+r.Intn(65535), zone)
+	case "hostname-underscore":
+		switch r.Intn(3) {
+		case 0:
+			return fmt.Sprintf("kraken_agent_%d", r.Intn(1000))
+		case 1:
+			return "_" + word(2, 8) + "._tcp." + word(2, 5) + ".example.com"
+		}
+		return word(2, 6) + "_" + word(1, 6) + "." + word(2, 6) + ".internal"
+	case "hostname-trailing-dot":
+		return word(3, 8) + "." + word(2, 5) + ".example.com."
+	case "hostname-upper-case":
+		return strings.ToUpper(word(3, 10)) + "." + []string{"Example.COM", "DC1.CORP", "local"}[r.Intn(3)]
+	case "hostname-single-label":
+		return word(1, 15)
+	case "hostname-numeric-label":
+		switch r.Intn(3) {
+		case 0:
+			return fmt.Sprintf("%d", r.Intn(100000))
+		case 1:
+			return fmt.Sprintf("%d.%s.example.com", r.Intn(1000), word(2, 6))
+		}
+		return fmt.Sprintf("host-%d.%d.%d", r.Intn(100), r.Intn(256), r.Intn(256))
+	default: // hostname-long-label
+		return word(64, 90) + "." + word(2, 6) + ".example.com"
+	}
+}
 
 func genAddr(r *rand.Rand) (addr, class string) {
 	class = addrClasses[r.Intn(len(addrClasses))]
@@ -124,8 +175,10 @@ func genAddr(r *rand.Rand) (addr, class string) {
 		addr = genIPv6Compressed(r)
 	case "ipv6-mapped":
 		addr = genIPv6Mapped(r)
-	default:
+	case "hostname":
 		addr = genHostname(r)
+	default:
+		addr = genUnusual(r, class)
 	}
 	return addr, class
 }
@@ -133,7 +186,8 @@ func genAddr(r *rand.Rand) (addr, class string) {
 // family folds the IPv6 spellings into one class for violation signatures: a
 // signature names the failing input class, not the spelling drawn by the PRNG.
 func family(class string) string {
-	if strings.HasPrefix(class, "ipv6") {
+	switch class {
+	case "ipv6-full", "ipv6-compressed", "ipv6-mapped":
 		return "ipv6"
 	}
 	return class
@@ -165,9 +219,11 @@ type announce struct {
 	Class    string `json:"class"`
 	Port     int    `json:"port"`
 	Complete bool   `json:"complete"`
-	Upgrade  bool   `json:"upgrade"`         // announced incomplete first, complete later
-	Alias    bool   `json:"alias,omitempty"` // re-uses the peer id of an earlier entry with another address and/or port
-	AtSec    int    `json:"at_sec"`          // seconds after the case's start
+	Upgrade  bool   `json:"upgrade"`            // announced incomplete first, complete later
+	Alias    bool   `json:"alias,omitempty"`    // re-uses the peer id of an earlier entry with another address and/or port
+	Via      int    `json:"via,omitempty"`      // store instance (tracker replica) that handles the announce
+	ReadVia  int    `json:"read_via,omitempty"` // 1+instance that serves a GetPeers(big) right after this announce; 0 = none
+	AtSec    int    `json:"at_sec"`             // seconds after the case's start
 	id       core.PeerID
 }
 
@@ -177,6 +233,9 @@ type caseSpec struct {
 	SmallN     int        `json:"small_n"`
 	Hash       string     `json:"info_hash"`
 	ReadAtEnd  bool       `json:"read_at_end_of_lookback"`
+	Instances  int        `json:"store_instances"` // RedisStore instances sharing the one Redis (tracker replicas)
+	FinalVia   int        `json:"final_read_via"`
+	SmallVia   int        `json:"small_read_via"`
 	Peers      []announce `json:"peers"`
 }
 
@@ -241,6 +300,15 @@ func genCase(r *rand.Rand) caseSpec {
 	c.SmallN = 1 + r.Intn(len(c.Peers))
 	c.Hash = gen.Hex(r, 40)
 	c.ReadAtEnd = r.Intn(2) == 0
+	// several tracker replicas on one Redis: every announce and every read goes to a PRNG-chosen instance
+	c.Instances = 1 + r.Intn(3)
+	for i := range c.Peers {
+		c.Peers[i].Via = r.Intn(c.Instances)
+		if r.Intn(3) == 0 {
+			c.Peers[i].ReadVia = 1 + r.Intn(c.Instances)
+		}
+	}
+	c.FinalVia, c.SmallVia = r.Intn(c.Instances), r.Intn(c.Instances)
 	return c
 }
 
@@ -264,7 +332,7 @@ type peerKey struct {
 func TestC28(t *testing.T) {
 	run := ev.Start(t, "C28", "exploration",
 		"PRNG-generated announce batches (1-12 peers per info hash; random 20-byte ids; IPv4, IPv6 full/compressed/IPv4-mapped, host names; "+
-			"ports 0-65535 incl. 0, 1-9, 65535; both flags; a third of the complete peers announce incomplete first; in half of the batches 1-3 peer ids announce again from another address and/or port, in the same or another window) over window sizes 1 s-1 h and 1-5 windows, "+
+			"ports 0-65535 incl. 0, 1-9, 65535; both flags; a third of the complete peers announce incomplete first; in half of the batches 1-3 peer ids announce again from another address and/or port, in the same or another window) over window sizes 1 s-1 h and 1-5 windows, through 1-3 RedisStore instances sharing the one Redis (every announce and every read goes to a PRNG-chosen instance; a third of the announces are followed by a GetPeers(big)), plus unusual address classes (zoned IPv6, underscore / trailing-dot / upper-case / single-label / numeric / long-label host names), "+
 			"announces spread across the look-back range. A case is non-trivial when GetPeers(big) returned without error and at least one peer was announced; "+
 			"distinct = distinct (config, peer batch).")
 	defer run.Finish()
@@ -304,7 +372,7 @@ func worker(t *testing.T, run *ev.Run, wid, nPeers int) {
 	mr.SetTime(base)
 
 	announced := 0
-	stores := map[[2]int]*peerstore.RedisStore{}
+	stores := map[[3]int]*peerstore.RedisStore{}
 	for ci := 0; announced < nPeers; ci++ {
 		spec := genCase(r)
 		caseID := fmt.Sprintf("w%d-case-%d", wid, ci)
@@ -312,22 +380,25 @@ func worker(t *testing.T, run *ev.Run, wid, nPeers int) {
 			announced += len(spec.Peers)
 			continue
 		}
-		// one store per configuration (RedisStore.Close does not release its
-		// connection pool, so stores are reused rather than created per case)
-		cfgKey := [2]int{spec.WindowSec, spec.MaxWindows}
-		store := stores[cfgKey]
-		if store == nil {
-			store, err = peerstore.NewRedisStore(peerstore.RedisConfig{
-				Addr:              mr.Addr(),
-				PeerSetWindowSize: time.Duration(spec.WindowSec) * time.Second,
-				MaxPeerSetWindows: spec.MaxWindows,
-				MaxIdleConns:      1,
-			}, clk)
-			if err != nil {
-				t.Errorf("NewRedisStore: %v", err)
-				return
+		// one store per (configuration, instance); reused across cases because
+		// RedisStore.Close does not release its connection pool
+		inst := make([]*peerstore.RedisStore, spec.Instances)
+		for i := range inst {
+			cfgKey := [3]int{spec.WindowSec, spec.MaxWindows, i}
+			inst[i] = stores[cfgKey]
+			if inst[i] == nil {
+				inst[i], err = peerstore.NewRedisStore(peerstore.RedisConfig{
+					Addr:              mr.Addr(),
+					PeerSetWindowSize: time.Duration(spec.WindowSec) * time.Second,
+					MaxPeerSetWindows: spec.MaxWindows,
+					MaxIdleConns:      1,
+				}, clk)
+				if err != nil {
+					t.Errorf("NewRedisStore: %v", err)
+					return
+				}
+				stores[cfgKey] = inst[i]
 			}
-			stores[cfgKey] = store
 		}
 		// start each case at the beginning of a window so that the generated
 		// offsets map to windows deterministically
@@ -345,6 +416,38 @@ func worker(t *testing.T, run *ev.Run, wid, nPeers int) {
 		}
 
 		want := map[peerKey]announce{}
+		// readBig: GetPeers(h, big) through one instance must return exactly what was announced so far
+		readBig := func(via int, when string) ([]*core.PeerInfo, bool) {
+			got, err := inst[via].GetPeers(h, 1000)
+			if err != nil {
+				run.Violation("get-peers-error", caseID, map[string]interface{}{"case": spec, "err": err.Error()})
+				return nil, false
+			}
+			checkReturned(run, caseID, spec, want, got, "big")
+			seen := map[peerKey]bool{}
+			for _, p := range got {
+				seen[peerKey{p.PeerID, p.IP, p.Port}] = true
+			}
+			for k, a := range want {
+				if seen[k] {
+					continue
+				}
+				sig := "announced-peer-not-returned/" + family(a.Class)
+				shared := 0
+				for k2 := range want {
+					if k2.id == k.id {
+						shared++
+					}
+				}
+				if shared > 1 && family(a.Class) != "ipv6" {
+					// the id announced from several addresses / ports and this one is gone
+					sig = "announced-peer-not-returned/peer-id-shared-by-several-addresses"
+				}
+				run.Violation(sig, caseID,
+					map[string]interface{}{"case": spec, "missing": a, "read": when, "read_via_instance": via, "returned": render(got)})
+			}
+			return got, true
+		}
 		updErr := false
 		for _, a := range spec.Peers {
 			at := start.Add(time.Duration(a.AtSec) * time.Second)
@@ -354,16 +457,23 @@ func worker(t *testing.T, run *ev.Run, wid, nPeers int) {
 				mr.SetTime(at)
 			}
 			if a.Upgrade {
-				if err := store.UpdatePeer(h, core.NewPeerInfo(a.id, a.Addr, a.Port, false, false)); err != nil {
+				if err := inst[a.Via].UpdatePeer(h, core.NewPeerInfo(a.id, a.Addr, a.Port, false, false)); err != nil {
 					run.Violation("update-peer-error/"+family(a.Class), caseID, map[string]interface{}{"case": spec, "peer": a, "err": err.Error()})
 					updErr = true
 				}
 			}
-			if err := store.UpdatePeer(h, core.NewPeerInfo(a.id, a.Addr, a.Port, false, a.Complete)); err != nil {
+			if err := inst[a.Via].UpdatePeer(h, core.NewPeerInfo(a.id, a.Addr, a.Port, false, a.Complete)); err != nil {
 				run.Violation("update-peer-error/"+family(a.Class), caseID, map[string]interface{}{"case": spec, "peer": a, "err": err.Error()})
 				updErr = true
 			}
 			want[peerKey{a.id, a.Addr, a.Port}] = a
+			if a.ReadVia > 0 {
+				readBig(a.ReadVia-1, "after-announce")
+				run.Count("intermediate_reads", 1)
+				if a.ReadVia-1 != a.Via {
+					run.Count("intermediate_reads_via_other_instance", 1)
+				}
+			}
 			announced++
 			run.Count("announces_"+a.Class, 1)
 			if a.Alias {
@@ -381,44 +491,26 @@ func worker(t *testing.T, run *ev.Run, wid, nPeers int) {
 			run.Count("reads_at_end_of_lookback", 1)
 		}
 
-		got, err := store.GetPeers(h, 1000)
-		if err != nil {
+		got, okRead := readBig(spec.FinalVia, "final")
+		if !okRead {
 			run.Case(ev.JSON(spec), false)
-			run.Violation("get-peers-error", caseID, map[string]interface{}{"case": spec, "err": err.Error()})
 			continue
 		}
 		run.Case(ev.JSON(spec), !updErr && len(spec.Peers) > 0)
 		if run.WantSample() && ci%97 == 0 {
 			run.Sample(spec)
 		}
-		checkReturned(run, caseID, spec, want, got, "big")
-		seen := map[peerKey]bool{}
+		present := map[peerKey]bool{}
 		for _, p := range got {
-			seen[peerKey{p.PeerID, p.IP, p.Port}] = true
+			present[peerKey{p.PeerID, p.IP, p.Port}] = true
 		}
 		for k, a := range want {
-			if !seen[k] {
-				// is there an entry with the same peer id but other fields? then
-				// checkReturned has reported the mangled field already
-				sig := "announced-peer-not-returned/" + family(a.Class)
-				shared := 0
-				for k2 := range want {
-					if k2.id == k.id {
-						shared++
-					}
-				}
-				if shared > 1 && family(a.Class) != "ipv6" {
-					// the id announced from several addresses / ports and this one is gone
-					sig = "announced-peer-not-returned/peer-id-shared-by-several-addresses"
-				}
-				run.Violation(sig, caseID,
-					map[string]interface{}{"case": spec, "missing": a, "returned": render(got)})
-			} else {
+			if present[k] { // (the missing ones were reported by readBig)
 				run.Count("roundtrips_ok_"+a.Class, 1)
 			}
 		}
 
-		small, err := store.GetPeers(h, spec.SmallN)
+		small, err := inst[spec.SmallVia].GetPeers(h, spec.SmallN)
 		if err != nil {
 			run.Violation("get-peers-error", caseID, map[string]interface{}{"case": spec, "err": err.Error()})
 			continue
